@@ -209,7 +209,7 @@ def run_batch(t):
     s.add('pp.tseq P ta tb dt q')
     for i in range(5):
         s.add('bindopt Q%d q.%d' % (i, i))
-    for k in (0, 1):
+    for k in (0, 1, 5):
         s.add('pp.batchseq P', k, 'B%d' % k, 'q')
         for i in range(5):
             s.add('pp.evalopt P Q%d %d p%d_%d' % (i, k, k, i))
@@ -221,11 +221,13 @@ def run_batch(t):
         if n > 5:
             continue
         sc = O.Scenario(ID, '%s len=%d path#%d' % (t['name'], n, len(out)), tu, s, decisions=dec, timeout=t['timeout'], dag=g, shadow_override=sh)
-        for k in (0, 1):
+        for k in (0, 1, 5):
             sc.int_eq('batch size == sequence length (order %d)' % k, 'B%d.n' % k, n)
             for i in range(n):
                 for d in range(dim):
                     sc.uf_eq('batch[%d] order %d [%d] == pointwise' % (i, k, d), 'B%d.%d.%d' % (k, i, d), 'p%d_%d.%d' % (k, i, d))
+                    if k == 5:
+                        sc.check('batch[%d] order 5 (above the degree 3) is zero [%d]' % (i, d), g.nodes[g.outs['B5.%d.%d' % (i, d)]] == [0, '0x0p+0'], str(g.nodes[g.outs['B5.%d.%d' % (i, d)]]))
         out.append(sc)
     fin = O.Scenario(ID, t['name'] + ' (exploration)', tu, s, timeout=t['timeout'])
     if ex.complete:
